@@ -5,6 +5,7 @@ property checks against it (KV_REPO), and require that the expected rule fires o
 usage: ./selftest.py [name-substring ...]        (no args: all mutants)
 The scratch worktree is removed afterwards.  Mutants that do not apply (anchor text gone) are reported as SKIP.
 """
+import glob
 import json
 import os
 import re
@@ -335,6 +336,20 @@ SEEDS = [
 ]
 
 
+# Behaviour-preserving refactorings written by independent sub-agents (benign/<id>/patch.diff): the check of the
+# property whose anchored code they touch must stay silent. Filled from benign/*/meta.json.
+def benign_patches():
+    out = []
+    for d in sorted(glob.glob(os.path.join(VERIF, "benign", "C??_b*"))):
+        try:
+            m = json.load(open(os.path.join(d, "meta.json")))
+        except Exception:
+            continue
+        for p in m.get("silent_on", [m.get("property")]):
+            out.append((os.path.basename(d), p))
+    return out
+
+
 def sh(cmd, **kw):
     return subprocess.run(cmd, shell=True, stdout=subprocess.PIPE, stderr=subprocess.STDOUT, text=True, **kw)
 
@@ -350,7 +365,9 @@ def main():
             and (prop is None or m[1] == prop)]
     benign = [x for x in BENIGN if (not want or any(w in x[0] for w in want)) and (prop is None or x[1] == prop)]
     seeds = [x for x in SEEDS if (not want or any(w in "seed-" + x[0] for w in want)) and (prop is None or x[1] == prop)]
-    if not muts and not seeds and not benign:
+    bpatches = [x for x in benign_patches() if (not want or any(w in "benign-" + x[0] for w in want))
+                and (prop is None or x[1] == prop)]
+    if not muts and not seeds and not benign and not bpatches:
         print("selftest: ok=0 fail=0 skip=0 (no catalogued mutant for this selection)")
         return 0
     scratch = tempfile.mkdtemp(prefix="kv_selftest_")
@@ -406,6 +423,24 @@ def main():
             else:
                 fail += 1
                 print(f"FAIL {name}: {bprop} exit={r.returncode} on a behaviour-preserving edit")
+                print("     " + "\n     ".join([l for l in r.stdout.splitlines() if "VIOLATION" in l or "BROKEN" in l][:6]))
+        for bid, bprop in bpatches:
+            patch = os.path.join(VERIF, "benign", bid, "patch.diff")
+            r = sh(f"git -C {wt} apply {patch}")
+            if r.returncode != 0:
+                print(f"SKIP benign-{bid}: patch does not apply to HEAD")
+                skip += 1
+                sh(f"git -C {wt} checkout -- . && git -C {wt} clean -fdq")
+                continue
+            r = subprocess.run([os.path.join(VERIF, "check"), bprop, "--tier", "quick"], env=env, stdout=subprocess.PIPE,
+                               stderr=subprocess.STDOUT, text=True)
+            sh(f"git -C {wt} checkout -- . && git -C {wt} clean -fdq")
+            if r.returncode == 0 and "VIOLATION" not in r.stdout:
+                ok += 1
+                print(f"OK   benign-{bid}: {bprop} stays silent on an independent behaviour-preserving refactoring")
+            else:
+                fail += 1
+                print(f"FAIL benign-{bid}: {bprop} exit={r.returncode} on a behaviour-preserving refactoring")
                 print("     " + "\n     ".join([l for l in r.stdout.splitlines() if "VIOLATION" in l or "BROKEN" in l][:6]))
         for sid, sprop, rule in seeds:
             patch = os.path.join(VERIF, "seeded", sid, "patch.diff")
